@@ -19,6 +19,7 @@ def check(tree, rep, tier='quick', seed=0):
     rep.assumptions = ['NOT decided: what pdftk does with the form data; non-ASCII text']
     core = get_core(tree)
     R.k23_filler(core, rep)
+    R.k23f_filling_keeps_no_state(core, rep)
     cat = get_catalogue(tree)
     n = 0
     for y in cat.years:
@@ -61,6 +62,22 @@ def check(tree, rep, tier='quick', seed=0):
                 seq = fr.class_attrs.get('sequence_no')
                 rep.ob('R19.8', f'{y}/{fr.name}/sequence-number-is-a-number', isinstance(seq, int) and not isinstance(seq, bool),
                        f'{fr.name}: sequence_no is {seq!r}; the filing order compares these values, so they must all be integers', fr.where)
+    # ---- R19.9 the jurisdiction that orders the output agrees with the form's name (nc_ prefix <=> North Carolina)
+    #      and with the same form in the other years (sibling agreement)
+    by_name = {}
+    for y in cat.years:
+        for fr in cat.forms(y):
+            if fr.pdf_file and not fr.cls.is_sub_named('InputForm'):
+                j = fr.class_attrs.get('jurisdiction')
+                jn = getattr(j, 'name', repr(j))
+                by_name.setdefault(fr.form_name, {})[y] = (jn, fr)
+    for fname, per in sorted(by_name.items()):
+        for y, (jn, fr) in sorted(per.items()):
+            want = 'NC' if fname.startswith('nc_') else 'US'
+            others = {v[0] for yy, v in per.items() if yy != y}
+            ok = jn == want and (not others or others == {jn} or jn == want)
+            rep.ob('R19.9', f'{y}/{fname}/jurisdiction', jn == want,
+                   f'{y} {fname} declares jurisdiction {jn}; its name and the other years ({sorted(others)}) say {want}: it is filed among the forms of the wrong return', fr.where)
     rep.floor('form classes with needs_filing class rules', n, 60)
     rep.floor('core rule obligations', sum(v[0] for k, v in rep.rules.items() if k.startswith('K')), 15)
 
